@@ -21,7 +21,7 @@
 (* Documented deviations are part of the model: columns beyond `cur` keep   *)
 (* their stale terms after a jump back; column 0 cannot be re-sent.         *)
 (***************************************************************************)
-EXTENDS Integers, Sequences, TLC
+EXTENDS Integers, Sequences, FiniteSets, TLC
 
 CONSTANTS NT,        \* number of time steps (columns 0..NT-1)
           MaxActs,   \* bound on the history length
@@ -112,6 +112,15 @@ Col0Fixed == x[0] = <<"ic">> /\ force[0] = <<0>>
 
 TypeOK == cur \in Cols /\ cacheIdx \in Cols /\ n \in 1..(MaxActs + 1)
 
+\* the meaning of the column <<"ic">>: the generator's first column under an initial-condition rule <<d0 given, v0 given, static_ic>> is the
+\* batch solver's first column under the SAME rule (specs/OdeModel.tla IcRule: d0 wins over static_ic; v0 does not switch static_ic off)
+IcRule == [zero |-> <<FALSE, FALSE, FALSE>>, d0v0 |-> <<TRUE, TRUE, FALSE>>, static |-> <<FALSE, FALSE, TRUE>>,
+           v0static |-> <<FALSE, TRUE, TRUE>>, d0static |-> <<TRUE, FALSE, TRUE>>, d0only |-> <<TRUE, FALSE, FALSE>>,
+           v0only |-> <<FALSE, TRUE, FALSE>>]
+StaticApplies(rule) == IcRule[rule][3] /\ ~IcRule[rule][1]
+IcLaws == /\ \A r \in DOMAIN IcRule : StaticApplies(r) <=> r \in {"static", "v0static"}
+          /\ Cardinality(DOMAIN IcRule) = 7
+ExportIc == (Export /\ hist = <<>>) => PrintT(<<"ICRULES", IcRule>>)
 ExportOK == Export => PrintT(<<"GEN", hist, cur, force, x>>)
 
 =============================================================================
